@@ -1,6 +1,7 @@
 import AffVerif.Proofs.VecLemmas
 import AffVerif.Proofs.ArithLift
 import AffVerif.Proofs.SchemaLemmas
+import AffVerif.Proofs.ChainLemmas
 /-!
 # C16 — affine functions obey their algebra and named constructors their names
 
@@ -82,6 +83,79 @@ where
       cases n with
       | zero => simp at h
       | succ n => simp only [zeros_succ, vadd_cons, add_zero]; rw [ih n (by simpa using h)]
+
+theorem vadd_zeros_right' (v : List α) (n : Nat) (h : v.length = n) : vadd v (zeros n) = v := by
+  induction v generalizing n with
+  | nil => simp
+  | cons a as ih =>
+    cases n with
+    | zero => simp at h
+    | succ n => simp only [zeros_succ, vadd_cons, add_zero]; rw [ih n (by simpa using h)]
+
+/-- `sum(n)` adds up the components -/
+theorem C16_sum (n : Nat) (x : List α) (hx : x.length = n) : (Aff.sum n : Aff α).apply x = [x.sum] := by
+  unfold Aff.sum Aff.apply
+  simp only [matVec, List.map_cons, List.map_nil, vadd_cons, add_zero]
+  congr 1
+  subst hx
+  induction x with
+  | nil => simp [ones]
+  | cons a as ih => simp only [ones, List.length_cons, List.replicate_succ, dot_cons, one_mul, List.sum_cons] at ih ⊢; rw [ih]
+
+/-- `subtraction(n, l, r)` computes `x_l − x_r` -/
+theorem C16_subtraction (n l r : Nat) (x : List α) (hl : l < n) (hr : r < n) (hlr : l ≠ r) :
+    (Aff.subtraction n l r : Aff α).apply x = [x.getD l 0 - x.getD r 0] := by
+  unfold Aff.subtraction Aff.apply
+  simp only [matVec, List.map_cons, List.map_nil, vadd_cons, add_zero]
+  rw [dot_subtraction_row n l r x hl hr hlr]
+  rfl
+
+/-- `rotation(n, R)` multiplies by `R` (no offset) -/
+theorem C16_rotation (n : Nat) (R : Mat α) (x : List α) (hR : R.length = n) :
+    (Aff.rotation n R : Aff α).apply x = matVec R x := by
+  unfold Aff.rotation Aff.apply
+  simp only
+  exact vadd_zeros_right' _ n (by simp [matVec, hR])
+
+/-- `scaling(s)` scales component `k` by `s_k`; `uniform_scaling(n, c)` scales every component by `c` -/
+theorem C16_scaling (s x : List α) :
+    (Aff.scaling s : Aff α).apply x = (List.range s.length).map (fun k => s.getD k 0 * x.getD k 0) := by
+  unfold Aff.scaling Aff.apply diag
+  simp only
+  rw [matVec_diagLike]
+  exact vadd_zeros_right' _ s.length (by simp)
+
+theorem C16_uniform_scaling (n : Nat) (c : α) (x : List α) :
+    (Aff.uniformScaling n c : Aff α).apply x = (List.range n).map (fun k => c * x.getD k 0) := by
+  unfold Aff.uniformScaling
+  rw [C16_scaling]
+  simp only [List.length_replicate]
+  apply List.map_congr_left
+  intro k hk
+  have : k < n := List.mem_range.mp hk
+  simp [List.getD_eq_getElem?_getD, this]
+
+theorem map_eq_range_map {γ δ : Type} (l : List γ) (g : γ → δ) (d : γ) :
+    l.map g = (List.range l.length).map (fun k => g (l.getD k d)) := by
+  apply List.ext_getElem
+  · simp
+  · intro i h1 h2
+    simp only [List.length_map] at h1
+    simp [List.getD_eq_getElem?_getD, h1]
+
+/-- `slice(reference)`: a fixed axis (`some v`) is set to `v`, a free axis (`none`, NaN in the code) is kept -/
+theorem C16_slice (ref : List (Option α)) (x : List α) :
+    (Aff.slice ref : Aff α).apply x =
+      (List.range ref.length).map (fun k => match ref.getD k none with | none => x.getD k 0 | some v => v) := by
+  unfold Aff.slice Aff.apply diag
+  simp only [List.length_map]
+  rw [matVec_diagLike, map_eq_range_map ref _ none, map_eq_range_map ref _ none, vadd_range_map]
+  apply List.map_congr_left
+  intro k hk
+  have hk' : k < ref.length := List.mem_range.mp hk
+  simp only [List.getD_eq_getElem?_getD, List.getElem?_map, List.getElem?_range hk', List.getElem?_eq_getElem hk',
+    Option.map_some, Option.getD_some]
+  cases ref[k] <;> simp
 
 end ordered
 
